@@ -615,3 +615,11 @@ Proof.
   fold s in Fk. rewrite Forall_forall in Fk. destruct (Fk ci Hin Hl) as (B1 & B2 & B3).
   refine (conj B1 (conj B2 _)). intros Ho. apply B3, Ho.
 Qed.
+
+(* every held reservation has a non-negative expiry (the clock starts at 0, TTL >= 0) *)
+Lemma rsvp_nonneg_l : forall c ops, wf c ->
+  let s := run c init_st ops in forall p e, s_rsvp s p = Some e -> 0 <= e.
+Proof.
+  intros c ops Wf s p e H. destruct (SI_run c ops (fun _ => addr0) init_st Wf (SI_init c _ Wf)) as (g' & _ & _ & (_ & L2 & _) & (N & _) & _).
+  fold s in L2, N. specialize (L2 p e H). pose proof (last_tick_nonneg (s_now s) N). lia.
+Qed.
